@@ -203,6 +203,19 @@ pub fn build(tier: Tier) -> Check<'static> {
     }
     let seeds = Arc::new(corpus::load());
     {
+        // intact seeds and reference-grammar sentences: reach into every production for the tree accessors
+        let s = seeds.clone();
+        c.parts.push(Part::new("seeds-intact", s.len() as u64, "every seed unmodified (all entry points, every accessor on every node)", move |i, acc| {
+            acc.nontrivial += 1;
+            through_all(acc, &s[i as usize].text, &format!("seed {}", s[i as usize].id), s[i as usize].is_lib());
+        }));
+        let sp = crate::props::c02::sentence_texts();
+        c.parts.push(Part::new("grammar-sentences", sp.len(), "every sentence of the C02 reference-grammar enumeration", move |i, acc| {
+            acc.nontrivial += 1;
+            through_all(acc, &sp.get(i), "reference grammar sentence", false);
+        }));
+    }
+    {
         // every seed cut at every token boundary and with every single token deleted
         let lim = tier.pick(200, 1 << 30);
         let mut tab: Vec<(usize, usize, bool)> = vec![];
